@@ -69,6 +69,7 @@ type viewTrack struct {
 	snapAmbig         map[string]bool // values held by >= 2 keys in a served snapshot
 	snapshots         int
 	lastSnapshot      time.Time
+	firstSnapBlank    bool // nothing had ever been registered under the range when its first snapshot was taken
 	dupWatch          bool // two watch streams on the range were open at the same time
 	deliveries        int
 	lastDelivery      time.Time
@@ -336,6 +337,10 @@ func (s *store) noteSnapshot(rangeKey string, kvs []*mvccpb.KeyValue) {
 	v := s.view(rangeKey)
 	v.snapshots++
 	v.lastSnapshot = time.Now()
+	if v.snapshots == 1 {
+		// the range's first snapshot: was anything registered under it before?
+		v.firstSnapBlank = len(s.ever[rangeKey]) == 0
+	}
 	n := map[string]string{}
 	cnt := map[string]int{}
 	for _, kv := range kvs {
